@@ -139,6 +139,8 @@ type Engine struct {
 	quantVars map[types.Object]bool
 	strLens map[string]int64
 	frame *frame
+	loopFrames []*frame
+	epochLoopFrames map[int][]*frame
 	clauseState *State
 	gmapFamilies int
 	mapV0 T
@@ -166,7 +168,7 @@ func newEngine(p *Program) *Engine {
 }
 
 func newEngine0(p *Program) *Engine {
-	e := &Engine{allocTerms: map[string]int{}, epochFrames: map[int]bool{}, strLens: map[string]int64{}, heapSyms: map[string]T{}, heapKeySeen: map[string]bool{}, structIDs: map[*types.Struct]string{}, prog: p, declared: map[string]bool{}, typeIDs: map[string]int{}, strLits: map[string]T{},
+	e := &Engine{epochLoopFrames: map[int][]*frame{}, allocTerms: map[string]int{}, epochFrames: map[int]bool{}, strLens: map[string]int64{}, heapSyms: map[string]T{}, heapKeySeen: map[string]bool{}, structIDs: map[*types.Struct]string{}, prog: p, declared: map[string]bool{}, typeIDs: map[string]int{}, strLits: map[string]T{},
 		globals: map[types.Object]Value{}, assumptions: map[string]bool{}, funcsUnder: map[string]bool{}, uf: map[string]string{}}
 	return e
 }
@@ -623,6 +625,7 @@ func (e *Engine) allocBlock(st *State, n int) T {
 type cellRange struct{ lo, hi T } // [lo, hi)
 
 type frame struct {
+	entry    *State // state relative to which untouched memory is unchanged
 	bound    T
 	blocks   []T
 	cells    []cellRange
@@ -631,8 +634,23 @@ type frame struct {
 	startSeq int
 }
 
+func (e *Engine) allFrames() []*frame {
+	var fs []*frame
+	if e.frame != nil {
+		fs = append(fs, e.frame)
+	}
+	return append(fs, e.loopFrames...)
+}
+
 func (e *Engine) frameAllowsBlk(blk T) T {
-	f := e.frame
+	var cs []T
+	for _, f := range e.allFrames() {
+		cs = append(cs, e.frameAllowsBlk1(f, blk))
+	}
+	return And(cs...)
+}
+
+func (e *Engine) frameAllowsBlk1(f *frame, blk T) T {
 	if f == nil || f.all {
 		return tTrue
 	}
@@ -647,7 +665,14 @@ func (e *Engine) frameAllowsBlk(blk T) T {
 }
 
 func (e *Engine) frameAllowsCell(addr T) T {
-	f := e.frame
+	var cs []T
+	for _, f := range e.allFrames() {
+		cs = append(cs, e.frameAllowsCell1(f, addr))
+	}
+	return And(cs...)
+}
+
+func (e *Engine) frameAllowsCell1(f *frame, addr T) T {
 	if f == nil || f.all {
 		return tTrue
 	}
@@ -662,7 +687,14 @@ func (e *Engine) frameAllowsCell(addr T) T {
 }
 
 func (e *Engine) frameAllowsMap(ref T) T {
-	f := e.frame
+	var cs []T
+	for _, f := range e.allFrames() {
+		cs = append(cs, e.frameAllowsMap1(f, ref))
+	}
+	return And(cs...)
+}
+
+func (e *Engine) frameAllowsMap1(f *frame, ref T) T {
 	if f == nil || f.all {
 		return tTrue
 	}
@@ -725,8 +757,13 @@ func (e *Engine) oldStaysOld(st *State, loc T, isBlock bool, ref T) {
 // assumeFrameAtHavoc: after forgetting the heap inside a function (loop head), memory outside the frame
 // still has its function-entry contents.
 func (e *Engine) assumeFrameMem(st *State) {
-	f := e.frame
-	if f == nil || f.all || e.entryState == nil {
+	for _, f := range e.allFrames() {
+		e.assumeFrameMem1(st, f)
+	}
+}
+
+func (e *Engine) assumeFrameMem1(st *State, f *frame) {
+	if f == nil || f.all || f.entry == nil {
 		return
 	}
 	e.nsym++
@@ -736,17 +773,76 @@ func (e *Engine) assumeFrameMem(st *State) {
 	for _, x := range f.blocks {
 		outside = append(outside, Ne(b, x))
 	}
-	e.assume(st, Forall([]string{v}, Implies(And(outside...), Eq(Sel(st.Mem, b), Sel(e.entryState.Mem, b)))), "frame: untouched blocks keep their entry contents")
+	e.assume(st, Forall([]string{v}, Implies(And(outside...), Eq(Sel(st.Mem, b), Sel(f.entry.Mem, b)))), "frame: untouched blocks keep their entry contents")
+}
+
+// frameInstance: the cells [addr, addr+n) read from heap `key` in a state whose untouched heaps were forgotten at a
+// loop head keep their contents from the frame's entry state when they lie outside the frame.
+func (e *Engine) frameInstance(st *State, key string, addr T, n int) {
+	if e.quant > 0 {
+		return
+	}
+	var fs []*frame
+	if e.epochFrames[st.epoch] && e.frame != nil {
+		fs = append(fs, e.frame)
+	}
+	fs = append(fs, e.epochLoopFrames[st.epoch]...)
+	if len(fs) == 0 {
+		return
+	}
+	sym, ok := e.heapSyms[fmt.Sprintf("%s@%d", key, st.epoch)]
+	if !ok {
+		return
+	}
+	for _, f := range fs {
+		if f == nil || f.all || f.entry == nil {
+			continue
+		}
+		old := e.heapGet(f.entry, key)
+		outside := []T{Lt(addr, f.bound)}
+		for _, c := range f.cells {
+			outside = append(outside, Or(Lt(addr, c.lo), Ge(addr, c.hi)))
+		}
+		var eqs []T
+		for i := 0; i < n; i++ {
+			a := Add(addr, I(int64(i)))
+			eqs = append(eqs, Eq(Sel(sym, a), Sel(old, a)))
+		}
+		e.assume(st, Implies(And(outside...), And(eqs...)), "frame: untouched cells keep their entry contents (instance)")
+		// the entry state of a loop frame may itself be a forgotten heap: chain the instance
+		if f.entry.epoch != st.epoch {
+			e.frameInstance(f.entry, key, addr, n)
+		}
+	}
+}
+
+// groundFrameBlk instantiates the frame facts for one block of interest (helps the solvers' matching).
+func (e *Engine) groundFrameBlk(st *State, blk T) {
+	for _, f := range e.allFrames() {
+		if f == nil || f.all || f.entry == nil {
+			continue
+		}
+		outside := []T{Lt(blk, f.bound)}
+		for _, x := range f.blocks {
+			outside = append(outside, Ne(blk, x))
+		}
+		e.assume(st, Implies(And(outside...), Eq(Sel(st.Mem, blk), Sel(f.entry.Mem, blk))), "frame: untouched block keeps its entry contents (instance)")
+	}
 }
 
 func (e *Engine) assumeFrameMaps(st *State) {
-	f := e.frame
-	if f == nil || f.all || e.entryState == nil {
+	for _, f := range e.allFrames() {
+		e.assumeFrameMaps1(st, f)
+	}
+}
+
+func (e *Engine) assumeFrameMaps1(st *State, f *frame) {
+	if f == nil || f.all || f.entry == nil {
 		return
 	}
 	for _, k := range []string{"MapP", "MapV", "MapN"} {
 		cur, ok1 := st.ghost[k]
-		old, ok2 := e.entryState.ghost[k]
+		old, ok2 := f.entry.ghost[k]
 		if !ok1 || !ok2 {
 			continue
 		}
@@ -761,12 +857,11 @@ func (e *Engine) assumeFrameMaps(st *State) {
 	}
 }
 
-func (e *Engine) frameHeapAxiom(key string, sym T) {
-	f := e.frame
-	if f == nil || f.all || e.entryState == nil {
+func (e *Engine) frameHeapAxiom(key string, sym T, f *frame) {
+	if f == nil || f.all || f.entry == nil {
 		return
 	}
-	old := e.heapGet(e.entryState, key)
+	old := e.heapGet(f.entry, key)
 	e.nsym++
 	v := fmt.Sprintf("fa!%d", e.nsym)
 	a := T{v, SInt}
@@ -796,9 +891,8 @@ func (e *Engine) heapGet(st *State, key string) T {
 	e.heapDecls = append(e.heapDecls, Def{name: name, sort: SArr})
 	t := T{name, SArr}
 	e.heapSyms[ek] = t
-	if e.epochFrames[st.epoch] {
-		e.frameHeapAxiom(key, t)
-	}
+	// frame facts for typed heaps are instantiated lazily at each load (frameInstance): asserting one quantified
+	// axiom per heap and epoch made the solvers loop
 	if !e.heapKeySeen[key] {
 		e.heapKeySeen[key] = true
 		e.heapKeys = append(e.heapKeys, key)
@@ -880,6 +974,11 @@ func (e *Engine) loadAt(st *State, addr T, t types.Type) Value {
 }
 
 func (e *Engine) loadAtK(st *State, addr T, t types.Type, key string) Value {
+	switch under(t).(type) {
+	case *types.Basic, *types.Pointer, *types.Map, *types.Chan, *types.Signature, *types.Slice, *types.Interface:
+		e.heapGet(st, key)
+		e.frameInstance(st, key, addr, e.cells(t))
+	}
 	switch u := under(t).(type) {
 	case *types.Basic:
 		c := Sel(e.heapGet(st, key), addr)
